@@ -65,6 +65,24 @@ func c14Addr(role int) {
 	r := c15Roles()[role]
 	a, err := r.parse(t.s)
 	if err != nil {
+		// a text the parser rejects (it violates the role's port rule) is rejected as JSON too
+		quoted := c14Quote(t.s)
+		var jerr error
+		switch role {
+		case 0:
+			var w BindAddr
+			jerr = w.UnmarshalJSON(quoted)
+		case 1:
+			var w BroadcastAddr
+			jerr = w.UnmarshalJSON(quoted)
+		case 2:
+			var w ListenAddr
+			jerr = w.UnmarshalJSON(quoted)
+		case 3:
+			var w ControllerAddr
+			jerr = w.UnmarshalJSON(quoted)
+		}
+		verifAssert(jerr != nil, r.name+" address: JSON decoding rejects a text that violates the port rule")
 		verifReach("c14.addr.rejected." + r.name)
 		return
 	}
